@@ -7,6 +7,7 @@ import (
 	"strings"
 	"testing"
 
+	"github.com/yuin/goldmark/parser"
 	"github.com/yuin/goldmark/text"
 	"pgregory.net/rapid"
 
@@ -17,7 +18,7 @@ import (
 
 func TestMain(m *testing.M) {
 	kit.Register("ast", astOracle)
-	kit.Describe("case = (configuration, source) from the shared generators (soup, line-structured soup, repository test inputs and mutations, deep nesting, exhaustive short strings); every node of the tree returned by Parser.Parse is validated; non-trivial = tree depth >= 3 or a node re-parented by a transformer/Close handler (table, footnote, definition list, setext heading, tight-list TextBlock); distinct by hash of (configuration, source)",
+	kit.Describe("case = (configuration, source) from the shared generators (soup, line-structured soup, repository test inputs and mutations, deep nesting, exhaustive short strings); optionally preceded by another document parsed with the same caller-supplied parser.Context; every node of the tree returned by Parser.Parse is validated; non-trivial = tree depth >= 3 or a node re-parented by a transformer/Close handler (table, footnote, definition list, setext heading, tight-list TextBlock); distinct by hash of (configuration, source)",
 		"node kinds are compared with the public vocabulary of core + enabled extensions", "documents up to 16 KiB")
 	kit.Main(m, "C05")
 }
@@ -31,7 +32,15 @@ func extKinds(cfg gen.Config) oracle.ExtKinds {
 func astOracle(c *kit.Case) error {
 	cfg := gen.ParseConfig(c.Config)
 	src := c.Bytes["src"]
-	doc := cfg.MD().Parser().Parse(text.NewReader(src))
+	var opts []parser.ParseOption
+	if prev, ok := c.Bytes["prev"]; ok {
+		// an earlier document parsed with the same caller-supplied parser.Context: nothing of its tree
+		// (nodes, positions into the other source) may turn up in this one
+		ctx := parser.NewContext()
+		_ = cfg.MD().Parser().Parse(text.NewReader(prev), parser.WithContext(ctx))
+		opts = append(opts, parser.WithContext(ctx))
+	}
+	doc := cfg.MD().Parser().Parse(text.NewReader(src), opts...)
 	st, err := oracle.CheckAST(doc, src, extKinds(cfg))
 	last = st
 	if err != nil {
@@ -66,6 +75,22 @@ func TestDocs(t *testing.T) {
 		cfg := gen.DrawConfig(t, gen.ConfigOpts{})
 		src, class := gen.Doc(t, gen.Any, kit.Pick(40, 120), "d")
 		run(t, cfg, src, class)
+	})
+}
+
+func TestSharedContext(t *testing.T) {
+	kit.Rapid(t, "shared-context", 40000, 2000000, func(t *rapid.T) {
+		cfg := gen.DrawConfig(t, gen.ConfigOpts{})
+		prev, _ := gen.Doc(t, gen.Any, kit.Pick(40, 120), "p")
+		src, class := gen.Doc(t, gen.Any, kit.Pick(20, 60), "d")
+		c := kit.NewCase("ast", cfg.String()).B("src", src).B("prev", prev)
+		last = oracle.ASTStats{}
+		if kit.Check(t, c) {
+			kit.R.Class("gen:shared-context:" + class)
+			if last.Depth >= 3 || last.Reparent {
+				kit.R.NonTrivial(c)
+			}
+		}
 	})
 }
 
